@@ -79,18 +79,20 @@ def decrypt (A : AEAD) (C : Nat) (k c : Bytes) : Bytes × Outcome :=
 /-! ## Destinations and sources (io.Writer / io.Reader as the code uses them) -/
 
 /-- behaviour of a destination: arbitrary state, arbitrary (deterministic)
-    decision per `Write` call given the bytes accepted so far and the length of
-    the call: `none` = success, `some n` = failure after accepting `n` bytes. -/
+    decision per `Write` call given the number of bytes accepted so far and the
+    bytes of the call: `none` = success, `some n` = failure after accepting `n`
+    bytes. (The bytes are visible to the destination so that another writer —
+    the armor writer — can itself be a destination.) -/
 structure DstSpec where
   σ : Type
-  step : σ → Nat → Nat → σ × Option Nat
+  step : σ → Nat → Bytes → σ × Option Nat
 
 structure Dst (S : DstSpec) where
   acc : Bytes
   st : S.σ
 
 def Dst.write {S : DstSpec} (d : Dst S) (b : Bytes) : Dst S × Bool :=
-  match S.step d.st d.acc.length b.length with
+  match S.step d.st d.acc.length b with
   | (s', none) => ({ acc := d.acc ++ b, st := s' }, true)
   | (s', some n) => ({ acc := d.acc ++ b.take n, st := s' }, false)
 
@@ -101,9 +103,9 @@ def DstSpec.perfect : DstSpec := { σ := Unit, step := fun _ _ _ => ((), none) }
     accepting the part before `off` (`partialOk`) or nothing. State: already fired. -/
 def DstSpec.atOffset (off : Nat) (partialOk once : Bool) : DstSpec :=
   { σ := Bool
-    step := fun fired accLen len =>
+    step := fun fired accLen b =>
       if (once && fired) then (fired, none)
-      else if accLen + len > off then (true, some (if partialOk then off - accLen else 0))
+      else if accLen + b.length > off then (true, some (if partialOk then off - accLen else 0))
       else (fired, none) }
 
 /-- fail write call number `idx` (0-based), once, accepting `n` bytes. State: call counter. -/
